@@ -250,7 +250,8 @@ func (j *jsonReader) getMap() map[string]any {
 	if j.current != nil {
 		return j.current
 	}
-	j.current = j.value[0].(map[string]any)
+	// An element that is not a JSON object has no tag, type nor value.
+	j.current, _ = j.value[0].(map[string]any)
 	return j.current
 }
 
@@ -264,8 +265,8 @@ func (j *jsonReader) Type() Type {
 	if ty, ok := typeFromName(typ); ok {
 		return ty
 	}
-	//TODO: return error
-	panic("Invalid type")
+	// Unknown type name: report an invalid type, decoding it then fails with an error.
+	return Type(0)
 }
 
 // Tag implements reader.
